@@ -49,6 +49,10 @@ def make_db(name, cfg, rng, prof=None):
             kw = kw[:-1]
         if kw.encode() in [k.encode() for k in db] or not kw:
             kw = "k%d" % n
+        if n == 0 and name not in ("SSE1", "SSE2"):
+            # one keyword longer than any label / key / digest length of the configuration (a URL, a sentence): the schemes built
+            # on HMAC set no limit on keywords
+            kw = "https://example.org/a/rather/long/keyword/" + kw + "/index.html"
         db[kw] = v
     return db, prof
 
